@@ -24,7 +24,7 @@ def queries(tier):
     # W >= 1 runs out of 20 GB (measured); only W = 0 is queried. The deadline cell is thorough-only (9-13 GB each).
     for to in ((0,) if tier == 'quick' else (0, 1000000)):
         for w in [0]:
-            qs.append(dict(name='comm_w%d_to%d' % (w, to), unit='proc', harness='h_comm.c', defs={'WMAX': w, 'TIMEOUT': to, 'TMAX': 6 + 3 * w}, unwind=5 + w, unwindset='harness.0:%d' % (8 + 3 * w), timeout=1500, mem_gb=18, flags=FS0, backend='cadical',
+            qs.append(dict(name='comm_w%d_to%d' % (w, to), unit='proc', harness='h_comm.c', defs={'WMAX': w, 'TIMEOUT': to, 'TMAX': (6 if to == 0 else 14) + 3 * w}, unwind=5 + w, unwindset='harness.0:%d' % ((8 if to == 0 else 16) + 3 * w), timeout=1500, mem_gb=18, flags=FS0, backend='cadical',
                            desc='Subprocess::communicate (no stdin payload) vs OS model: child writes <= %d bytes in arbitrary chunks/timing and exits; %s' % (w, 'no deadline' if to == 0 else 'deadline 1 s, arbitrary clock'),
-                           bounds='<= %d stdout bytes, <= %d OS calls' % (w, 6 + 3 * w)))
+                           bounds='<= %d stdout bytes, <= %d OS calls (clock reads included)' % (w, (6 if to == 0 else 14) + 3 * w)))
     return qs
